@@ -97,12 +97,18 @@ pub fn generate(seed: u64, tier: &str, out: &mut dyn std::io::Write) {
             if r.chance(1, 3) {
                 cfg.principal = Some(0x10); // no such mapping: PrincipalMappingNotReferenced
             }
+            // the same request with nothing failing: what "all other streams intact" is measured against
+            let reference = {
+                let mut dest = RecDest::new(vec![], 0);
+                dump_case("C11", &format!("r{}-{}-{}", seed, rep, mask), &t, &cfg, &mut dest, "")
+            };
             let mut fail_client = FailSpotName::testing_client();
             for (i, n) in names.iter().enumerate() {
                 fail_client.set_enabled(*n, mask & (1 << i) != 0);
             }
             let mut dest = RecDest::new(vec![], 0);
-            let o = dump_case("C11", &format!("f{}-{}-{}", seed, rep, mask), &t, &cfg, &mut dest, "");
+            let o = dump_case("C11", &format!("f{}-{}-{}", seed, rep, mask), &t, &cfg, &mut dest,
+                &(if reference.result == "ok" { format!("ref=@{}", reference.img_path) } else { String::new() }));
             for n in names.iter() {
                 fail_client.set_enabled(*n, false);
             }
